@@ -599,6 +599,7 @@ pub fn show_op(op: &Op) -> String {
             h
         ),
         Op::Exec { prog, ctx } => format!("execute({:?}, {})", prog.text(), show_ctx(ctx)),
+        Op::ExecSole { prog, slot } => format!("parse_expression({:?}).exec(slot {} as the ONLY strong owner of its handle)", prog.text(), slot),
         Op::Parse { prog } => format!("parse_expression({:?})", prog.text()),
         Op::ParseExec { prog, ctx, times } => format!("parse_expression({:?}).exec({}) x{}", prog.text(), show_ctx(ctx), times),
         Op::ExecShared { ast, ctx } => format!("shared_ast[{}].exec({})", ast, show_ctx(ctx)),
